@@ -76,7 +76,13 @@ def observable(r):
         out = ("ok", None if r.get("msg") is None else (r["msg"].node_id, r["msg"].child_id, r["msg"].command, r["msg"].ack, r["msg"].message_type, r["msg"].payload))
     else:
         out = (exc_name(e), getattr(e, "node_id", None), getattr(e, "child_id", None))
-    return out, [(w, ok) for w, ok in r["writes"]], r["after"]["nodes"], r["after"]["sbuf"], r["after"]["ibuf"]
+    ws = [(w, ok) for w, ok in r["writes"]]
+    if r["kind"] == "recv":
+        m = spec_decode(r["line"])
+        if m is not None and m[2] == 3 and iname(r["before"]["proto"], m[4]) == "I_TIME":
+            # the two gateways read the clock at different moments
+            ws = [(w.rsplit(";", 1)[0] + ";<clock>\n" if w.startswith(f"{m[0]};{m[1]};3;0;{m[4]};") else w, ok) for w, ok in ws]
+    return out, ws, r["after"]["nodes"], r["after"]["sbuf"], r["after"]["ibuf"]
 
 
 def excluded(op, old, new):
